@@ -5,3 +5,7 @@ import SuxModel.Props.C08
 #print axioms Sux.Func.filterVal_lt
 #print axioms Sux.Func.accept_count
 #print axioms Sux.Func.accept_iff
+#print axioms Sux.Func.contains_iff
+#print axioms Sux.Func.contains_eq
+#print axioms Sux.Func.contains_iff_hash_class
+#print axioms Sux.Func.rejects_outside_class
